@@ -26,6 +26,9 @@ CLAIMED['C17'] = dict(category='proof',
 CLAIMED['C12'] = dict(category='proof',
     text='The real parse::detail::stream<char> / <wchar_t> (through parse::get_char / get_position / set_position) over a ghost input stream whose text is an uninterpreted function of the offset (every text, every length): the constructor establishes location == (L(0),C(0)); get_char from ANY state satisfying the invariant (any offset, any eof/fail flags) returns text(off), advances the offset by one and re-establishes location == (L(off+1),C(off+1)), or returns nothing and leaves offset and location unchanged at end of input / on a failing stream; get_position returns (off, L(off), C(off)) and clears a pending eof; set_position(p) restores exactly p and get_position then returns p; a bad() stream throws the documented exception and yields no character. L/C are the line/column spec functions defined by their recurrences.',
     note='Assumed (trusted) contracts, as executable stubs: std::basic_istream::get/tellg/seekg and std::basic_ios::bad/eof/fail/clear (machine code in libstdc++). (M) induction over the interleaving of reads and restores. Not decided: message text formatting (iostream).')
+CLAIMED['C20'] = dict(category='proof',
+    text="The real distribution::basic, variate, parameters::uniform_int (plain, strong-typedef and enum result types), make_uniform_enum_advanced, make_uniform_indices_advanced, wrapper::uniform_container, make_uniform_container_advanced and generator::basic_pseudo are instantiated over an ABSTRACT wrapped distribution and engine (fcppt's own customisation point): every draw is an uninterpreted function of the draw index and the current parameters, with ghost counters for construction, copy, assignment, param(), reset(). Contracts: a distribution is constructed with exactly the given parameters; each draw calls the wrapped distribution exactly once with the caller's generator and returns that value re-wrapped; a variate yields the successive values of the wrapped pair; param(p) forwards to the wrapped param() without rebuilding the object; enum/index factories build the closed interval [0, size-1]; empty container => nothing; uniform_container returns the element at the drawn index (in-bounds access is an obligation); basic_pseudo forwards seed, min(), max() and draws (also checked on std::minstd_rand / mt19937 constants); the concrete std parameter types receive exactly (min,max) / (min,sup) / (mean,stddev).",
+    note="Assumed: the std distributions and engines themselves (in-bounds and reaches-both-ends are properties of std::uniform_int_distribution given exactly the proved parameters). (M) parametricity of the templates in the wrapped distribution/engine. Not decided: members that do not instantiate (param() getter, operator()(rng, param)), stream operators.")
 NA = {}
 props = [json.loads(l) for l in open(os.path.join(V, 'properties.jsonl'))]
 na_reasons = json.load(open(os.path.join(V, 'tools', 'not_applicable.json')))
